@@ -412,10 +412,45 @@ CORPUS_CHAIN = [
 ]
 
 
+def non_integer_chains(ctx, real):
+    """Regression guard outside the Lean model (which has integer types only): the chain rewrites also
+    fire for ptr and float constants; the constant must be the plain sum (cast() leaves it alone) and
+    the pass must not raise (commit 4e7434c wrapped with correct() and raised AttributeError here)."""
+    ir = real.ir
+    for ty, c1, c2 in ((ir.ptr, 4, 8), (ir.ptr, 0, 1 << 40), (ir.f64, 1.5, 2.5), (ir.f32, 0.5, 0.25)):
+        for op in "+-":
+            m = ir.Module("t", debug_db=real.DebugDb())
+            bld = real.irutils.Builder()
+            bld.set_module(m)
+            fn = bld.new_function("f", ir.Binding.GLOBAL, ty)
+            bld.set_function(fn)
+            blk = bld.new_block()
+            fn.entry = blk
+            bld.set_block(blk)
+            p = ir.Parameter("p", ty)
+            fn.add_parameter(p)
+            k1 = bld.emit(ir.Const(c1, "c1", ty))
+            k2 = bld.emit(ir.Const(c2, "c2", ty))
+            q = bld.emit(ir.Binop(p, op, k1, "q", ty))
+            r = bld.emit(ir.Binop(q, op, k2, "r", ty))
+            bld.emit(ir.Return(r))
+            case = f"({ty} p {op} {c1}) {op} {c2}"
+            try:
+                real.cf.run(m)
+                got = f"ok rechain {r.b.ty} {r.b.value!r}" if (r.a is p and isinstance(r.b, ir.Const)) else "ok keep"
+            except Exception as ex:  # noqa: BLE001
+                got = "err " + type(ex).__name__
+            ctx.count("eval_chain_non_integer")
+            want = f"ok rechain {ty} {c1 + c2!r}"
+            if got != want:
+                ctx.disagree("chain-non-integer-type", case, got, want + "  (expected: plain sum, as cast() does for ptr/float)")
+
+
 def check(ctx):
     import time
     t_check = time.time()
     real = Real()
+    non_integer_chains(ctx, real)
     rng = ctx.rng
     P = Plan(ctx, real)
     folder_ops = list(real.cf.ops)            # what the checked tree folds
